@@ -412,21 +412,32 @@ PROPS = {
              level_note="partial: the Go memory model is not formalised; freedom from data races in the real code (incl. pgx) is observed "
                         "by the race detector on generated schedules, not proved. Trusted: Lean kernel; harness.",
              technique="Lean 4 proof (noninterference of a product system, induction on schedules) + differential correspondence under the race detector"),
-    "C16": P("Pw.Props.C16",
-             ["Pw.Props.C16.inv_init", "Pw.Props.C16.inv_step", "Pw.Props.C16.inv_run", "Pw.Props.C16.C16_no_double_close",
+    "C16": P("Pw.Props.C16Fine",
+             ["Pw.ConcF.inv_init", "Pw.ConcF.inv_step", "Pw.ConcF.inv_run", "Pw.ConcF.F_no_double_close", "Pw.ConcF.F_mutex",
+              "Pw.ConcF.F_waits", "Pw.ConcF.F_final", "Pw.ConcF.F_no_deadlock", "Pw.ConcF.returned_mono",
+              "Pw.Props.C16.inv_init", "Pw.Props.C16.inv_step", "Pw.Props.C16.inv_run", "Pw.Props.C16.C16_no_double_close",
               "Pw.Props.C16.C16_waits", "Pw.Props.C16.C16_final", "Pw.Props.C16.closing_mono", "Pw.Props.C16.C16_no_deadlock"],
              [("close", 500, 40000)], ["Close"],
              design_ref="§7 C16",
-             level_text="Lean theorems about a thread model of Server.Close / Server.admit / the Serve helper goroutine for ANY number of "
-                        "closers and commands and ANY schedule (inductive invariant: chan closes = [closing], wg = running handlers + "
+             level_text="Lean theorems about TWO thread models of Server.Close / Server.admit / the Serve helper goroutine, for ANY number "
+                        "of closers and commands and ANY schedule. Fine-grained (Model/ConcF.lean): every synchronisation operation "
+                        "- mu.Lock, closing.Load, closing.Store, close(closer), mu.Unlock, wg.Add, wg.Wait, wg.Done - is its own step "
+                        "and the mutex is explicit; inductive invariant (one thread at most between Lock and Unlock; chan closes + "
+                        "closers between Store and close = [closing]; wg = admitted unfinished commands + [helper pending]; what a "
+                        "thread read under the lock is still true while it holds it; once a Close returned no command is counted): "
+                        "the channel is closed at most once (F_no_double_close), Close returns only when no admitted command is "
+                        "unfinished (F_waits), after any Close has returned no command is admitted or running again under EVERY "
+                        "continuation, whatever operation of admit other goroutines were in (F_final), and some thread can always "
+                        "step while a Close is pending (F_no_deadlock). Coarse (Model/Conc.lean, one atomic step per critical "
+                        "section - the abstraction the forced schedules replay) with the same guarantees (inductive invariant: chan closes = [closing], wg = running handlers + "
                         "[helper pending], every closer past its critical section implies closing): the closer channel is closed at most "
                         "once (no double-close panic); a Close call can return only when no admitted handler is running and the listener "
                         "has been closed; once any Close has returned every later admission is refused (closing is monotone); and while "
-                        "some Close has not returned some thread can always step (no deadlock). Critical sections of srv.mu contain no "
-                        "blocking operation and are modelled as atomic steps. Tie: pinned bodies of Close and admit and the pinned call "
+                        "some Close has not returned some thread can always step (no deadlock). Tie: pinned bodies of Close and admit and the pinned call "
                         "order of consumeSingleCommand/Serve; forced-schedule replay through the verif hooks: generated schedules "
                         "(1-3 concurrent Close calls x commands on 1-2 connections incl. failing extended batches) are executed on the "
-                        "real server by parking goroutines at the hook points; per-step outcomes (admitted/refused/returned) are compared "
+                        "real server by parking goroutines at the hook points, including inside admit right after the closing check while "
+                        "a Close arrives and tries to return (wP/wG/cT); per-step outcomes (admitted/refused/returned) are compared "
                         "with the model and the properties are checked directly with a logical clock (handler start vs Close return, "
                         "Close return vs running handlers, hangs, Serve() == nil).",
              level_note="partial: sync.Mutex, sync.WaitGroup, channels and the Go scheduler are trusted; 'Serve returns nil' is observed, "
